@@ -273,6 +273,10 @@ pub enum DbOp {
     /// close and reopen with `max_file_size` set to the given value (options may change between
     /// reopens, C01); snapshots and pinned iterators end here
     ReopenSmallFiles(u64),
+    /// (C15) close, XOR the byte `back` bytes before the end of the current manifest with `mask`,
+    /// reopen.  If `open` refuses the damaged file the run ends there (that is the answer C15 asks
+    /// for); if it opens, the history goes on and is judged like any other.
+    DamageManifest(usize, u8),
 }
 
 fn make_batch(ops: &[(Vec<u8>, Option<Vec<u8>>)]) -> crate::Batch {
@@ -301,6 +305,7 @@ pub fn run_history(ops: &[DbOp], keys: &[Vec<u8>]) -> Vec<String> {
             DbOp::Snapshot => {}
             DbOp::Plant => {}
             DbOp::ReleaseSnapshot => {}
+            DbOp::DamageManifest(_, _) => {}
             DbOp::CompactLevel(level, lo, hi) => db.as_ref().unwrap().force_level_compaction(*level, &(lo.as_deref()..hi.as_deref())),
             DbOp::ReopenSmallFiles(n) => {
                 drop(db.take());
@@ -353,11 +358,15 @@ pub struct PinnedScan {
 
 pub fn run_views_and_pins(ops: &[DbOp], keys: &[Vec<u8>], moves: &str) -> (Vec<View>, Vec<PinnedScan>) {
     PINS.with(|p| p.borrow_mut().clear());
+    OPEN_REFUSED.with(|r| *r.borrow_mut() = None);
     let views = run_views(ops, keys, moves);
     let pins = PINS.with(|p| std::mem::take(&mut *p.borrow_mut()));
     (views, pins)
 }
 thread_local! { static PINS: std::cell::RefCell<Vec<PinnedScan>> = std::cell::RefCell::new(vec![]); }
+thread_local! { pub static OPEN_REFUSED: std::cell::RefCell<Option<String>> = std::cell::RefCell::new(None); }
+/// Some(error text) if the last `run_views` ended because `open` refused a damaged file
+pub fn open_refused() -> Option<String> { OPEN_REFUSED.with(|r| r.borrow().clone()) }
 
 /// Cursor scripts run on a fresh iterator for every key of interest: F = seek_to_first, L = seek_to_last,
 /// S = seek(key), n = next, p = prev (a step on an invalid cursor ends the script).
@@ -398,6 +407,36 @@ pub fn run_views(ops: &[DbOp], keys: &[Vec<u8>], moves: &str) -> Vec<View> {
                 drop(db.take());
                 options.max_file_size = *n;
                 db = Some(DB::open(options.clone()).unwrap());
+            }
+            DbOp::DamageManifest(back, mask) => {
+                use std::io::{Read, Write};
+                snaps.clear();
+                pinned.clear();
+                drop(db.take());
+                let fs = options.filesystem_provider();
+                let root = std::path::PathBuf::from(options.db_path());
+                // the manifest CURRENT names is the newest one
+                let mut manifests: Vec<std::path::PathBuf> = fs.list_dir(&root).unwrap_or_default().into_iter()
+                    .filter(|p| p.file_name().map_or(false, |n| n.to_string_lossy().starts_with("MANIFEST"))).collect();
+                manifests.sort();
+                if let Some(m) = manifests.last() {
+                    let mut bytes = vec![];
+                    fs.open_file(m).unwrap().read_to_end(&mut bytes).unwrap();
+                    if *back >= 1 && *back <= bytes.len() {
+                        let n = bytes.len();
+                        bytes[n - *back] ^= *mask;
+                        let mut f = fs.create_file(m, false).unwrap();
+                        f.write_all(&bytes).unwrap();
+                    }
+                }
+                options.create_if_missing = false;
+                match DB::open(options.clone()) {
+                    Ok(d) => db = Some(d),
+                    Err(e) => {
+                        OPEN_REFUSED.with(|r| *r.borrow_mut() = Some(format!("{}", e)));
+                        return vec![];
+                    }
+                }
             }
             DbOp::Batch(ops) => db.as_ref().unwrap().apply(WriteOptions::default(), make_batch(ops)).unwrap(),
             DbOp::Reopen(reuse) => {
